@@ -84,6 +84,9 @@ func (c *unlambdaChecker) VisitExpr(x ast.Expr) {
 		}
 
 		for _, id := range params.Names {
+			if n >= len(result.Args) {
+				return // Only possible if the package has type errors
+			}
 			if !astequal.Expr(id, result.Args[n]) {
 				return
 			}
